@@ -353,3 +353,45 @@ def run_physical_unit(ctx):
 from .sysprobe import replay_for as _replay_for  # noqa: E402
 
 REPLAYS = [("runphys.*", _replay_for(['C02', 'C06', 'C15', 'C01'], 1500))]
+
+
+@unit("runphys.no-exception-retention", props=["C16"],
+      functions=[(REL, "BoundCall.run"), (REL, "prep_run_physical.<locals>.process"), ("_util/retry.py", "create_retry"),
+                 ("_execution/run_function_on_graph.py", "run_function_on_graph.<locals>.process_node")],
+      assumptions=["an exception object references its traceback, the traceback the frames of the failed call, and those frames the argument values: "
+                   "binding a caught exception to a name that outlives its except clause keeps consumed results alive (possibly through a reference cycle)"],
+      min_obligations=4, kind="syntactic")
+def no_exception_retention(ctx):
+    """Escape obligation (syntactic, AST of the working tree): on the call path of a user function - BoundCall.run, the retry wrapper,
+    process - no except handler stores the caught exception (or sys.exc_info()) in a local variable, attribute or container that
+    survives the handler.  process_node is the one place that must keep an exception (first_node_error, reported at the end of the run)
+    and is exempt for exactly that cell."""
+    import ast
+
+    from ujvc.extract import find_def, module_ast
+
+    def stores_of_exception(fn):
+        bad = []
+        for h in [n for n in ast.walk(fn) if isinstance(n, ast.ExceptHandler) and n.name]:
+            for st in ast.walk(h):
+                if isinstance(st, (ast.Assign, ast.AnnAssign, ast.AugAssign, ast.NamedExpr)):
+                    val = st.value
+                    if val is not None and any(isinstance(x, ast.Name) and x.id == h.name for x in ast.walk(val)):
+                        tgts = st.targets if isinstance(st, ast.Assign) else [st.target]
+                        for t in tgts:
+                            # writing an attribute OF the exception itself (exception.__traceback__ = ...) retains nothing new
+                            if isinstance(t, ast.Attribute) and isinstance(t.value, ast.Name) and t.value.id == h.name:
+                                continue
+                            bad.append((st.lineno, ast.unparse(st)[:80]))
+                if isinstance(st, ast.Call) and isinstance(st.func, ast.Attribute) and st.func.attr in ("append", "add", "extend", "setdefault", "update") \
+                        and any(isinstance(x, ast.Name) and x.id == h.name for a in st.args for x in ast.walk(a)):
+                    bad.append((st.lineno, ast.unparse(st)[:80]))
+        return bad
+
+    for rel, q, allowed in [(REL, "BoundCall.run", ()), (REL, "prep_run_physical.<locals>.process", ()), ("_util/retry.py", "create_retry", ()),
+                            ("_execution/run_function_on_graph.py", "run_function_on_graph.<locals>.process_node", ("first_node_error",))]:
+        tree, _, _ = module_ast(rel)
+        fn = find_def(tree, q)
+        bad = [b for b in stores_of_exception(fn) if not any(a in b[1] for a in allowed)]
+        ctx.check(f"{q}:no-caught-exception-is-bound-beyond-its-except-clause", bool(not bad), info=f"{rel}: {bad}")
+    return "ok"
